@@ -132,6 +132,14 @@ class Fresh:
         return None
 
 
+class Pair2:
+    """a pair whose children are arbitrary CLVM storage objects"""
+
+    def __init__(self, l, r):
+        self.atom = None
+        self.pair = (l, r)
+
+
 class Plain:
     """ordinary python tree object with stored children"""
 
@@ -197,6 +205,17 @@ def main_c27():
             "Program.wrap(CLVMTree)": lambda: Program.wrap(CLVMTree.from_bytes(classic)),
             "Program.from_bytes": lambda: Program.from_bytes(classic),
         }
+        if isinstance(t, tuple):
+            # parts of one tree that come from separate deserialisations / runs (each has its own allocator on the
+            # Rust side), combined by python objects or by Program.to
+            cl, cr = R.ser(t[0]), R.ser(t[1])
+            wrappers.update({
+                "Mixed(LazyNode . LazyNode)": lambda: Pair2(w.deser_legacy(cl), w.deser_legacy(cr)),
+                "Mixed(LazyNode(backrefs) . LazyNode(program result))": lambda: Pair2(w.deser_backrefs(w.ser_backrefs(w.deser_legacy(cl))), w.run_serialized_chia_program(b"\x01", cr, 1000, 0)[1]),
+                "Mixed(Program.to((from_bytes, from_bytes)))": lambda: Program.to((Program.from_bytes(cl), Program.from_bytes(cr))),
+                "Mixed(Program.to((from_bytes, plain)))": lambda: Program.to((Program.from_bytes(cl), t[1])),
+                "Mixed(Plain . Program.wrap(LazyNode))": lambda: Pair2(Plain(t[0]), Program.wrap(w.deser_legacy(cr))),
+            })
         for name, mk in wrappers.items():
             obj = mk()
             if rnd.random() < 0.2:
@@ -211,7 +230,7 @@ def main_c27():
                 c.violation("clvm_tree_to_lazy_node-raised", {"case": i}, {"wrapper": name, "tree": classic.hex()[:600], "error": repr(e)})
                 continue
             c.count("wrapper:" + name)
-            fresh_children = name.startswith("LazyNode") or name.startswith("Fresh") or "wrap(LazyNode" in name
+            fresh_children = name.startswith("LazyNode") or name.startswith("Fresh") or "wrap(LazyNode" in name or name.startswith("Mixed")
             if fresh_children and count_nodes(t) >= 50:
                 c.nontrivial(name, classic)
                 if len(c.samples) < 3:
